@@ -90,7 +90,7 @@ def run_case(case):
     spec = case['spec']
     res = dict(evals=0, states=0, trans=0, nontrivial=False, key=case['name'], features={}, violations=[])
     feats = res['features']
-    depth = 3 if _TIER[0] == 'quick' else 4
+    depth = 3 if (_TIER[0] == 'quick' or case['name'] == 'four_choices_constrained') else 4
     if spec.get('grp'):
         feats['grouping_subject'] = 1
     res['nontrivial'] = len(spec.get('choices', [])) >= 2 or bool(spec.get('cch'))
